@@ -553,7 +553,8 @@ static Peer wirePeer;
 static FILE * emitFile = NULL;
 
 static std::vector<std::string> SplitTabs(const std::string & s) { std::vector<std::string> v; size_t a = 0; for (;;) { size_t b = s.find('\t', a); if (b == std::string::npos) { v.push_back(s.substr(a)); break; } v.push_back(s.substr(a, b - a)); a = b + 1; } return v; }
-static std::string FromHex(const std::string & h) { std::string o; o.reserve(h.size() / 2); for (size_t i = 0; i + 1 < h.size(); i += 2) { unsigned v = 0; sscanf(h.c_str() + i, "%2x", &v); o.push_back((char)v); } return o; }
+static int Nib(char c) { return (c >= '0' && c <= '9') ? c - '0' : (c >= 'a' && c <= 'f') ? c - 'a' + 10 : (c >= 'A' && c <= 'F') ? c - 'A' + 10 : 0; }
+static std::string FromHex(const std::string & h) { std::string o; o.reserve(h.size() / 2); for (size_t i = 0; i + 1 < h.size(); i += 2) o.push_back((char)((Nib(h[i]) << 4) | Nib(h[i + 1]))); return o; }
 static void EnsureWirePeer()
 {
    if (wirePeer.Running()) return;
@@ -845,15 +846,15 @@ static void RunFrame(long k)
    std::string why, sc, sm, su; std::vector<std::string> got;
 
    // ---- (1) three producers in memory, against the documented frame and against each other
-   if (!CppOut(ms, sc, why)) Fail("frame|cpp-gateway-output-error", why);
-   else if (sc != doc) Fail("frame|cpp-gateway-vs-documented-frame", DiffText("documented", doc, "c++ gateway", sc));
-   if (!caseBad) { if (!MiniOut(ss, sm, why)) Fail("frame|mini-gateway-output-error", why); else if (sm != sc) Fail("frame|mini-gateway-vs-cpp-gateway", DiffText("c++ gateway", sc, "mini gateway", sm)); }
-   if (!caseBad) { if (!MicroOut(ss, su, why)) Fail("frame|micro-gateway-output-error", why); else if (su != sc) Fail("frame|micro-gateway-vs-cpp-gateway", DiffText("c++ gateway", sc, "micro gateway", su)); }
+   if (!CppOut(ms, sc, why)) Fail("gw|cpp-gateway-output-error", why);
+   else if (sc != doc) Fail("gw|cpp-gateway-vs-documented-frame", DiffText("documented", doc, "c++ gateway", sc));
+   if (!caseBad) { if (!MiniOut(ss, sm, why)) Fail("gw|mini-gateway-output-error", why); else if (sm != sc) Fail("gw|mini-gateway-vs-cpp-gateway", DiffText("c++ gateway", sc, "mini gateway", sm)); }
+   if (!caseBad) { if (!MicroOut(ss, su, why)) Fail("gw|micro-gateway-output-error", why); else if (su != sc) Fail("gw|micro-gateway-vs-cpp-gateway", DiffText("c++ gateway", sc, "micro gateway", su)); }
    // ---- (2) mutual acceptance in memory (chopped reads)
-   if (!caseBad) { got.clear(); if (!MiniIn(sc, got, why)) Fail("frame|mini-gateway-rejects-cpp-frames", why); else if (got != bodies) Fail("frame|mini-gateway-reads-cpp-frames-differently", ListDiff("sent", bodies, "mini gateway", got)); }
-   if (!caseBad) { got.clear(); if (!MicroIn(sc, got, why)) Fail("frame|micro-gateway-rejects-cpp-frames", why); else if (got != bodies) Fail("frame|micro-gateway-reads-cpp-frames-differently", ListDiff("sent", bodies, "micro gateway", got)); }
-   if (!caseBad) { got.clear(); if (!CppIn(sm, got, why)) Fail("frame|cpp-gateway-rejects-mini-frames", why); else if (got != bodies) Fail("frame|cpp-gateway-reads-mini-frames-differently", ListDiff("sent", bodies, "c++ gateway", got)); }
-   if (!caseBad) { got.clear(); if (!CppIn(su, got, why)) Fail("frame|cpp-gateway-rejects-micro-frames", why); else if (got != bodies) Fail("frame|cpp-gateway-reads-micro-frames-differently", ListDiff("sent", bodies, "c++ gateway", got)); }
+   if (!caseBad) { got.clear(); if (!MiniIn(sc, got, why)) Fail("gw|mini-gateway-rejects-cpp-frames", why); else if (got != bodies) Fail("gw|mini-gateway-reads-cpp-frames-differently", ListDiff("sent", bodies, "mini gateway", got)); }
+   if (!caseBad) { got.clear(); if (!MicroIn(sc, got, why)) Fail("gw|micro-gateway-rejects-cpp-frames", why); else if (got != bodies) Fail("gw|micro-gateway-reads-cpp-frames-differently", ListDiff("sent", bodies, "micro gateway", got)); }
+   if (!caseBad) { got.clear(); if (!CppIn(sm, got, why)) Fail("gw|cpp-gateway-rejects-mini-frames", why); else if (got != bodies) Fail("gw|cpp-gateway-reads-mini-frames-differently", ListDiff("sent", bodies, "c++ gateway", got)); }
+   if (!caseBad) { got.clear(); if (!CppIn(su, got, why)) Fail("gw|cpp-gateway-rejects-micro-frames", why); else if (got != bodies) Fail("gw|cpp-gateway-reads-micro-frames-differently", ListDiff("sent", bodies, "c++ gateway", got)); }
    if (!caseBad) vh::stat("frames_compared_in_memory", (long)n);
 
    // ---- (3) TCP loopback: C++ MessageIOGateway <-> message_transceiver_thread.py echoing every Message
@@ -861,20 +862,20 @@ static void RunFrame(long k)
       EchoUp(); echo.rec->in.clear(); echo.rec->out.clear(); Rx rx;
       const std::string ended = EchoExchange(ms, rx);
       echo.peerSaid += echo.peer.Drain();
-      const char * defect = nonAscii ? "frame|py-flattenedsize-nonascii-fieldname" : NULL;
+      const char * defect = NULL;   // (no per-defect attribution on this leg: the stream does not tell which Message went wrong)
       if (!ended.empty()) {
          usleep(200000); echo.peerSaid += echo.peer.Drain();
-         Fail(defect ? defect : (ended.compare(0, 10, "python pee") == 0 && ended.find("stalled") != std::string::npos) ? "frame|python-peer-stalled" : ended.compare(0, 11, "C++ gateway") == 0 ? "frame|cpp-gateway-rejects-python-frames" : "frame|python-peer-closed-connection",
+         Fail(defect ? defect : (ended.compare(0, 10, "python pee") == 0 && ended.find("stalled") != std::string::npos) ? "gw|python-peer-stalled" : ended.compare(0, 19, "C++ gateway rejects") == 0 ? "gw|cpp-gateway-rejects-python-frames" : "gw|python-peer-closed-connection",
               ended + vh::fmt(" | %zu of %u echoes, %zu bytes sent, %zu received | peer said: ", rx.got.size(), n, echo.rec->out.size(), echo.rec->in.size()) + echo.peerSaid.substr(0, 1200) + " | peer stderr: " + echo.peer.ErrText().substr(0, 600));
       }
-      else if (echo.rec->out != doc) Fail("frame|cpp-gateway-on-tcp-vs-documented-frame", DiffText("documented", doc, "c++ gateway", echo.rec->out));
-      else if (rx.got != bodies) Fail(defect ? defect : "frame|python-echo-differs", ListDiff("sent", bodies, "echoed", rx.got));
-      else if (echo.rec->in != echo.rec->out) Fail(defect ? defect : "frame|python-frame-bytes-vs-cpp-frame-bytes", DiffText("c++ gateway wrote", echo.rec->out, "python wrote", echo.rec->in));
+      else if (echo.rec->out != doc) Fail("gw|cpp-gateway-on-tcp-vs-documented-frame", DiffText("documented", doc, "c++ gateway", echo.rec->out));
+      else if (rx.got != bodies) Fail(defect ? defect : "gw|python-echo-differs", ListDiff("sent", bodies, "echoed", rx.got));
+      else if (echo.rec->in != echo.rec->out) Fail(defect ? defect : "gw|python-frame-bytes-vs-cpp-frame-bytes", DiffText("c++ gateway wrote", echo.rec->out, "python wrote", echo.rec->in));
       else {
          vh::stat("frames_echoed_by_python", (long)n); vh::stat("tcp_bytes_echoed", (long)doc.size());
          // what Python wrote is also what the two C gateways accept
-         got.clear(); if (!MiniIn(echo.rec->in, got, why) || got != bodies) Fail("frame|mini-gateway-of-python-frames", why);
-         got.clear(); if (!caseBad && (!MicroIn(echo.rec->in, got, why) || got != bodies)) Fail("frame|micro-gateway-of-python-frames", why);
+         got.clear(); if (!MiniIn(echo.rec->in, got, why) || got != bodies) Fail("gw|mini-gateway-of-python-frames", why);
+         got.clear(); if (!caseBad && (!MicroIn(echo.rec->in, got, why) || got != bodies)) Fail("gw|micro-gateway-of-python-frames", why);
       }
       if (caseBad) EchoDown(true);     // the stream may be out of step: next case gets a fresh peer
    }
@@ -882,7 +883,7 @@ static void RunFrame(long k)
    vh::stat("messages", (long)n); vh::stat("bytes_total", (long)doc.size()); vh::statmax("max_frame_bytes", (long)(doc.size() / n)); if (nonAscii) vh::stat("cases_with_non_ascii_field_names");
    if (vh::want_sample()) vh::sample(vh::fmt("case %ld: %u messages %zu bytes ", k, n, doc.size()) + curJson.substr(0, 200));
 }
-//@@FRAME-END@@
+
 
 // ------------------------------------------------------------------------------------------------ fixed witnesses (every run)
 static Fld MkI(const char * n, uint32 t, int64_t a, int64_t b, int cnt) { Fld f; f.name = n; f.type = t; f.iv.push_back(a); if (cnt > 1) f.iv.push_back(b); return f; }
@@ -913,7 +914,7 @@ static void Regress()
    vh::begin_case(0);   // the documented layout, byte by byte, in all implementations
    { g = vh::Rng(100); const Scr s = DocScript(); RunWire(0, s, true);
      MessageRef m = BuildCpp(s); const std::string bc = FlatCpp(*m()), doc = FromHex(DOC_HEX);
-     if (bc != doc) { caseBad = false; Fail("regress|documented-example-bytes", DiffText("hand-written from the layout comment", doc, "c++", bc)); } }
+     if (bc != doc) { caseBad = false; Fail("witness|documented-example-bytes", DiffText("hand-written from the layout comment", doc, "c++", bc)); } }
    vh::begin_case(1);   // message.py's own documentation example (its __main__ stub) is readable by the C++ and C codecs
    { caseBad = false; curJson = "(message.py example)"; EnsureWirePeer(); wirePeer.Send("{\"cmd\":\"example\"}\n"); std::vector<std::string> v = SplitTabs(wirePeer.ReadLine());
      if (v.size() != 3 || v[0] != "E") HarnessAbort("unexpected answer to the example request");
@@ -922,24 +923,24 @@ static void Regress()
         // message.py: GetFieldContentsLength() counts str items of a non-string field without the NUL (and in characters) that Flatten() writes
         Known("pyexample", "py|fieldlength-str-item-in-user-typed-field", "message.py's own example: FlattenedSize() " + v[2] + vh::fmt(" but Flatten() writes %zu bytes; the payload length word of field 'data' (str items in a field of type 555) is 3 too small", pb.size()));
         wirePeer.Send("{\"cmd\":\"example\",\"data_as_bytes\":1}\n"); v = SplitTabs(wirePeer.ReadLine()); if (v.size() != 3 || v[0] != "E") HarnessAbort("unexpected answer to the example request");
-        pb = FromHex(v[1]); strItems = false; if ((size_t)atol(v[2].c_str()) != pb.size()) Fail("regress|python-example-flattenedsize", "FlattenedSize() " + v[2] + vh::fmt(" but %zu bytes written", pb.size()));
+        pb = FromHex(v[1]); strItems = false; if ((size_t)atol(v[2].c_str()) != pb.size()) Fail("witness|python-example-flattenedsize", "FlattenedSize() " + v[2] + vh::fmt(" but %zu bytes written", pb.size()));
      }
      Message back; status_t r = back.UnflattenFromBytes((const uint8 *)pb.data(), (uint32)pb.size());
-     if (r.IsError()) Fail("regress|cpp-rejects-python-example", r());
+     if (r.IsError()) Fail("witness|cpp-rejects-python-example", r());
      else {
-        if (FlatCpp(back) != pb) Fail("regress|cpp-reflatten-of-python-example", DiffText("python", pb, "c++", FlatCpp(back)));
+        if (FlatCpp(back) != pb) Fail("witness|cpp-reflatten-of-python-example", DiffText("python", pb, "c++", FlatCpp(back)));
         int32 i32 = 0; int64 i64 = 0; bool bo = false; float fl = 0; Point pt; Rect rc; const String * st = NULL; ConstMessageRef sub; uint32 tc = 0, cnt = 0; const void * dp = NULL; uint32 dn = 0;
         if (back.what != 666 || back.GetNumNames() != 15 || back.FindInt32("int32", 2, i32).IsError() || i32 != 30 || back.FindInt64("int64", 4, i64).IsError() || i64 != -25 || back.FindBool("bool", 0, bo).IsError() || !bo
             || back.FindFloat("float", 4, fl).IsError() || fl != 4.0f || back.FindPoint("point", 0, pt).IsError() || pt.x() != 6.5f || pt.y() != 7.5f || back.FindRect("rect", 0, rc).IsError() || rc.left() != 9.1f || rc.bottom() != 12.5f
             || back.FindString("string", 2, &st).IsError() || *st != "strongme!" || back.FindMessage("submsg", 0, sub).IsError() || sub()->what != 777 || sub()->GetString("hola") != "senor"
             || back.GetInfo("data", &tc, &cnt).IsError() || tc != 555 || cnt != 3 || back.FindData("data", 555, 1, &dp, &dn).IsError() || dn != (strItems ? 6u : 5u) || memcmp(dp, "stuff\0", dn) != 0
             || back.HasName("cboolfalse") || back.HasName("cstring") || back.HasName("cpoint") || !back.HasName("crect2"))
-           Fail("regress|cpp-content-of-python-example", "the C++ Message parsed from message.py's example does not hold the documented values");
+           Fail("witness|cpp-content-of-python-example", "the C++ Message parsed from message.py's example does not hold the documented values");
      }
      MMessage * mm = MMAllocMessage(0); MCK(mm, "MMAllocMessage");
-     if (MMUnflattenMessage(mm, pb.data(), (uint32)pb.size()) != CB_NO_ERROR) Fail("regress|mini-rejects-python-example", "MMUnflattenMessage"); else if (FlatMM(mm) != pb) Fail("regress|mini-reflatten-of-python-example", DiffText("python", pb, "mini", FlatMM(mm)));
+     if (MMUnflattenMessage(mm, pb.data(), (uint32)pb.size()) != CB_NO_ERROR) Fail("witness|mini-rejects-python-example", "MMUnflattenMessage"); else if (FlatMM(mm) != pb) Fail("witness|mini-reflatten-of-python-example", DiffText("python", pb, "mini", FlatMM(mm)));
      MMFreeMessage(mm);
-     UMessage um; int16 i16 = 0; if (UMInitializeWithExistingData(&um, (const uint8 *)pb.data(), (uint32)pb.size()) != CB_NO_ERROR || UMGetWhatCode(&um) != 666 || UMGetNumFields(&um) != 15 || UMFindInt16(&um, "int16", 1, &i16) != CB_NO_ERROR || i16 != 18 || !UMGetString(&um, "string", 0) || strcmp(UMGetString(&um, "string", 0), "stringme!") != 0) Fail("regress|micro-of-python-example", "UMessage getters on message.py's example");
+     UMessage um; int16 i16 = 0; if (UMInitializeWithExistingData(&um, (const uint8 *)pb.data(), (uint32)pb.size()) != CB_NO_ERROR || UMGetWhatCode(&um) != 666 || UMGetNumFields(&um) != 15 || UMFindInt16(&um, "int16", 1, &i16) != CB_NO_ERROR || i16 != 18 || !UMGetString(&um, "string", 0) || strcmp(UMGetString(&um, "string", 0), "stringme!") != 0) Fail("witness|micro-of-python-example", "UMessage getters on message.py's example");
      if (!caseBad && !deferredKey.empty()) Fail(deferredKey, deferredDetail);
      vh::distinct(vh::fnvs(pb), true); vh::stat("python_documentation_example_checked"); }
    vh::begin_case(2);   // message.py: FlattenedSize() counts the characters, not the UTF-8 bytes, of a field name -> wrong sub-Message length word
@@ -951,16 +952,16 @@ static void Regress()
      std::vector<Scr> ss(1, DocScript()); std::vector<MessageRef> ms(1, BuildCpp(ss[0])); const std::string body = FromHex(DOC_HEX); curJson.clear(); Json(ss[0], curJson);
      const std::string doc = FromHex("9b000000" "30636e45") + body; curCppHex = vh::hex(doc.data(), doc.size(), 200); std::string sc, sm, su;
      if (body.size() != 155) HarnessAbort("documented example is not 155 bytes");
-     if (!CppOut(ms, sc, why) || sc != doc) Fail("regress|cpp-gateway-documented-frame", DiffText("documented", doc, "c++ gateway", sc));
-     if (!MiniOut(ss, sm, why) || sm != doc) Fail("regress|mini-gateway-documented-frame", DiffText("documented", doc, "mini gateway", sm));
-     if (!MicroOut(ss, su, why) || su != doc) Fail("regress|micro-gateway-documented-frame", DiffText("documented", doc, "micro gateway", su));
+     if (!CppOut(ms, sc, why) || sc != doc) Fail("witness|cpp-gateway-documented-frame", DiffText("documented", doc, "c++ gateway", sc));
+     if (!MiniOut(ss, sm, why) || sm != doc) Fail("witness|mini-gateway-documented-frame", DiffText("documented", doc, "mini gateway", sm));
+     if (!MicroOut(ss, su, why) || su != doc) Fail("witness|micro-gateway-documented-frame", DiffText("documented", doc, "micro gateway", su));
      std::vector<std::string> got, want(1, body);
-     if (!CppIn(doc, got, why) || got != want) Fail("regress|cpp-gateway-reads-documented-frame", why); got.clear();
-     if (!MiniIn(doc, got, why) || got != want) Fail("regress|mini-gateway-reads-documented-frame", why); got.clear();
-     if (!MicroIn(doc, got, why) || got != want) Fail("regress|micro-gateway-reads-documented-frame", why);
+     if (!CppIn(doc, got, why) || got != want) Fail("witness|cpp-gateway-reads-documented-frame", why); got.clear();
+     if (!MiniIn(doc, got, why) || got != want) Fail("witness|mini-gateway-reads-documented-frame", why); got.clear();
+     if (!MicroIn(doc, got, why) || got != want) Fail("witness|micro-gateway-reads-documented-frame", why);
      vh::distinct(vh::fnvs(doc), true); vh::stat("documented_frame_checked"); }
 }
-//@@REGRESS-END@@
+
 
 int main(int argc, char ** argv)
 {
